@@ -59,12 +59,12 @@ RULES = [
     dict(name='string', cxx="string< 'a', 'b', 'c' >", need=3),
     dict(name='istring', cxx="istring< 'a', 'b' >", need=2),
     dict(name='utf8_any', cxx='utf8::any', need=4),
-    dict(name='eof', cxx='eof', need=1, flags=['C07_NO_SHORT']),
+    dict(name='eof', cxx='eof', need=1, flags=['C07_NO_SHORT'], single=True),
     dict(name='eol', cxx='eol', need=2),
     dict(name='eolf', cxx='eolf', need=2),
     dict(name='bytes2', cxx='bytes< 2 >', need=2),
-    dict(name='rep_min_max', cxx="rep_min_max< 1, 3, one< 'a' > >", need=4),
-    dict(name='must', cxx="seq< A1, must< B1 > >", need=2),
+    dict(name='rep_min_max', cxx="rep_min_max< 1, 3, one< 'a' > >", need=4, single=True),
+    dict(name='must', cxx="seq< A1, must< B1 > >", need=2, single=True),
 ]
 RULE_UNTIL = dict(name='until', cxx="until< one< 'b' > >", ok='(s0.c+first_b(s0.byte)+1>M_)')
 # grammars that discard where nothing can backtrack (top-level rewind_mode::optional as in tao::pegtl::parse(), no action with input above the discard):
@@ -81,8 +81,9 @@ def plan(ctx):
     quick = ctx.quick()
     cpp = os.path.join(vf.VERIF, 'harness', 'c07.cpp')
     h = os.path.join(vf.VERIF, 'harness', 'c07.c')
-    kf = {k.get('id'): k for k in vf.load_known('C07')}
-    d9 = 'D9' if kf.get('D9', {}).get('status') == 'known' else None
+    # D9 (require() called the reader once): the driver applies the exclusion only while known_findings.json records D9 as 'known' and drops the
+    # confirmation query once it is recorded as 'fixed'
+    d9 = 'D9'
     short = ({'NSETUP': 3, 'SETUP_SHAPE': '{0,1,3}', 'SETUP_ONE_READ': 1}, 'require(a1); bump(k1); discard() or bump(k2)')
     long_ = ({'NSETUP': 5, 'SETUP_SHAPE': '{0,1,3,0,1}', 'SETUP_ONE_READ': 1}, 'require(a1); bump(k1); discard() or bump(k2); require(a3); bump(k3)')
     if quick:
@@ -108,7 +109,7 @@ def plan(ctx):
             kw = dict(defines=d, cbmc_defines={'VF_SPLIT': 1, 'C07_OP': OPS.index(op), 'MAXIMUM': mx}, unwind=max(lmax + 2, 8), unwindset=[(REQ % chunk) + ':%d' % (cap + 1)],
                       mem_gb=3, bounds=dict(b, operation=op))
             qs.append(vf.Query('op/chunk%d/max%d/%s%s' % (chunk, mx, op, tag), unit, h, known=d9, note='contract of buffer_input::%s from an arbitrary valid state' % op, **kw))
-            if d9 and op == 'require' and (chunk, mx) == (2, 2):
+            if op == 'require' and (chunk, mx) == (2, 2) and sh is short:
                 qs.append(vf.Query('known/D9/require', unit, h, expect_fail='D9', note='confirmation of D9: one reader call per require()', **kw))
     for chunk, mx, rules, sh in rule_cfgs:
         cap, lmax, d0, b = common(chunk, mx, sh)
